@@ -245,6 +245,21 @@ def expectedSnapshotCloses : List (String × String × String) := [
   ("Writer.prepareSegment", "root", "defer"),
   ("Writer.replaceRoot", "rootPrev", "rootPrev!=nil")]
 
+/-- where references are taken, reviewed: the two places that read the SHARED root pointer (`Writer.root`)
+and add a reference — `currentSnapshot` and the persister's grab — do both inside one `rootLock` region
+(`replaceRoot` swaps the pointer under the write lock and closes `rootPrev` only after unlocking, so a root
+read under the lock still has the root's own reference when `addRef` runs). Every other `addRef`/`AddRef`
+is on a snapshot the function built itself (`fresh`) or on a segment listed by a snapshot it holds a
+reference on (`root := s.currentSnapshot()`: `path(local)`; the freshly built `newIndexSnapshot`:
+`path(fresh)`), which the guards of `keep`/`dup` in the model state. -/
+def expectedRefTakes : List (String × String × String × String × String) := [
+  ("Writer.currentSnapshot", "addRef", "rv", "shared:s.root", "locked:s.rootLock"),
+  ("Writer.introduceMerge", "AddRef", "root.segment[i].segment", "path(local)", "-"),
+  ("Writer.introduceMerge", "addRef", "newSnapshot", "fresh", "-"),
+  ("Writer.introducePersist", "AddRef", "newIndexSnapshot.segment[i].segment", "path(fresh)", "-"),
+  ("Writer.introduceSegment", "AddRef", "root.segment[i].segment", "path(local)", "-"),
+  ("Writer.persisterLoop", "addRef", "ourSnapshot", "shared:s.root", "locked:s.rootLock")]
+
 /-- `X ⊆ Y` as a decidable check -/
 def subsetOf {α : Type} [BEq α] (xs ys : List α) : Bool := xs.all fun x => ys.contains x
 
@@ -262,6 +277,16 @@ theorem view_method_calls_allowed :
 /-- **ref_sites.** The `AddRef`/`DecRef`/`addRef`/`decRef` call sites of package `index` are exactly the ones
 the events of `Bluge.Refs` transcribe (a dropped or an added reference operation changes this table). -/
 theorem ref_sites : (BlugeGen.C04.refCalls == expectedRefCalls) = true := by decide
+
+/-- **refs_taken_under_the_lock_that_guards_the_pointer.** Every reference taken on a pointer read from shared
+state is taken inside the lock region in which the pointer was read. This is what justifies that `readerOpen`
+and `grab` are ONE atomic event ("read `root` and `addRef` it") in `Bluge.Refs`: were the `addRef` outside the
+region, the code would have the two-step event "remember the root" … "addRef whatever that snapshot is now",
+between which `publish` + `release` can take the remembered snapshot to zero, and `refcount_inv` /
+`C04_no_early_close` would not be theorems about the code (a dead snapshot would be resurrected and its
+segments released twice). -/
+theorem refs_taken_under_the_lock_that_guards_the_pointer :
+    (BlugeGen.C04.refTakes == expectedRefTakes) = true := by decide
 
 /-- **release_sites.** The `Close()` calls on snapshots held by local variables are exactly the reviewed ones,
 under exactly the reviewed conditions (a hoisted, duplicated or dropped release changes this table). -/
